@@ -401,6 +401,20 @@ fn values_part(plan: &Plan) -> RunResult {
                 b.avg_payout_routing = extreme(&mut rng);
                 b.avg_payout_mining = extreme(&mut rng);
                 b.avg_nolan_rebroadcast_per_block = extreme(&mut rng);
+                // every remaining numeric header field, each with its own value (a decoder that reads one
+                // field from another's byte range survives equal values)
+                b.total_fees_new = extreme(&mut rng);
+                b.total_fees_atr = extreme(&mut rng);
+                b.total_fees_cumulative = extreme(&mut rng);
+                b.total_payout_routing = extreme(&mut rng);
+                b.total_payout_mining = extreme(&mut rng);
+                b.total_payout_treasury = extreme(&mut rng);
+                b.total_payout_graveyard = extreme(&mut rng);
+                b.total_payout_atr = extreme(&mut rng);
+                b.avg_payout_treasury = extreme(&mut rng);
+                b.avg_payout_graveyard = extreme(&mut rng);
+                b.avg_payout_atr = extreme(&mut rng);
+                b.fee_per_byte = extreme(&mut rng);
                 let nt = rng.below(5);
                 for _ in 0..nt {
                     let mut t = rand_tx(&mut rng, &keys);
